@@ -51,11 +51,15 @@ class RuleResult:
         return len(self.instances)
 
     def check_floor(self):
-        if self.count() < self.floor:
-            v = Violation("FLOOR", self.rule, "instances<%d" % self.floor, "-", 0,
-                          "rule %s matched %d %s, fewer than the floor %d confirmed by hand: the rule has "
+        """vacuity guard. `floor` is the number of instances counted by hand on the reference tree; a behaviour-preserving refactoring can
+        legitimately merge or split sites (two pushes hoisted into one, an explicit `return None` turned into `?`), so the alarm is raised only
+        when fewer than half of them (and at least one) are left - each rule additionally fails closed on its own anchors"""
+        need = max(1, (self.floor + 1) // 2) if self.floor > 0 else 0
+        if self.count() < need:
+            v = Violation("FLOOR", self.rule, "instances<%d" % need, "-", 0,
+                          "rule %s matched %d %s, fewer than %d (half of the %d confirmed by hand): the rule has "
                           "gone vacuous (anchor moved/renamed or extraction broken) - fail closed"
-                          % (self.rule, self.count(), self.floor_what, self.floor))
+                          % (self.rule, self.count(), self.floor_what, need, self.floor))
             self.violations.append(v)
 
 
